@@ -41,6 +41,18 @@ func init() {
 				// differ from Get's); child / index / union / filter-only paths are not covered by this finding
 				switch v.Entry {
 				case "jp.Expr.Has(typed)", "jp.Expr.First(typed)", "jp.Expr.First(collections)", "jp.Expr.Has(collections)":
+				case "jp.Expr.Walk(typed)", "jp.Expr.Locate(typed)":
+					// the reflection branches of Slice.Walk / Slice.locate (arrays are not handled) and of the
+					// filter fragment: the path contains a slice or a filter
+					if v.Kind == "panic" {
+						return false
+					}
+					for _, k := range strings.Split(strings.SplitN(v.Class, "/", 2)[0], ".") {
+						if k == "slice" || k == "filter" {
+							return true
+						}
+					}
+					return false
 				default:
 					return false
 				}
@@ -666,6 +678,53 @@ func (ck *checker) check1(p jpref.Path, data any, enum bool) {
 				ck.v("jp.Expr.First("+name+")", "not-a-member-of-get", class, cs, clip(strings.Join(textSet(got), " ")), t)
 			}
 		}
+		// Locate and Walk on the representation: the same normalized paths as on the simple data
+		want := make([]string, len(locs))
+		for i, l := range locs {
+			want[i] = l.String()
+		}
+		sort.Strings(want)
+		var rl []jp.Expr
+		var rw []string
+		if pn := mon.Guard(func() {
+			rl = x.Locate(rd, 0)
+			x.Walk(rd, func(path jp.Expr, _ []any) { rw = append(rw, path.String()) })
+		}); pn != nil {
+			ck.v("jp.Expr.Locate("+name+")", "panic", class, cs, "paths", pn.String())
+			continue
+		}
+		c.Eval(2)
+		c.Cover("eval:Locate/Walk(" + name + ")")
+		// paths on other representations may spell a struct field by its Go name and keep a negative index:
+		// both are resolved against the simple data before the comparison
+		ls := make([]string, len(rl))
+		for i, l := range rl {
+			ls[i] = canonPath(l, data)
+		}
+		sort.Strings(ls)
+		for i := range want {
+			want[i] = canonPath(locs[i], data)
+		}
+		sort.Strings(want)
+		var rwx []jp.Expr
+		x.Walk(rd, func(path jp.Expr, _ []any) { rwx = append(rwx, append(jp.Expr{}, path...)) })
+		rw = rw[:0]
+		for _, l := range rwx {
+			rw = append(rw, canonPath(l, data))
+		}
+		sort.Strings(rw)
+		if strings.Join(ls, " ") != strings.Join(want, " ") {
+			ck.v("jp.Expr.Locate("+name+")", "differs-from-locate-on-simple-data", class, cs, clip(strings.Join(want, " ")), clip(strings.Join(ls, " ")))
+		}
+		// Walk reports paths without the root fragment: compared with the Walk paths on the simple data
+		ww := make([]string, len(wpaths))
+		for i, l := range wpaths {
+			ww[i] = canonPath(l, data)
+		}
+		sort.Strings(ww)
+		if strings.Join(rw, " ") != strings.Join(ww, " ") {
+			ck.v("jp.Expr.Walk("+name+")", "differs-from-walk-on-simple-data", class, cs, clip(strings.Join(ww, " ")), clip(strings.Join(rw, " ")))
+		}
 	}
 }
 
@@ -734,6 +793,51 @@ func (ck *checker) located(entry string, paths []jp.Expr, vals []any, data any, 
 			return
 		}
 	}
+}
+
+// canonPath renders a located path resolved against the simple data: indexes non-negative, keys spelled as
+// in the data (a struct field reported by its Go name matches the key case-insensitively), no root fragment.
+func canonPath(x jp.Expr, data any) string {
+	var b strings.Builder
+	cur := data
+	for _, f := range x {
+		switch t := f.(type) {
+		case jp.Root, jp.At:
+		case jp.Nth:
+			i := int(t)
+			if a, ok := cur.([]any); ok {
+				if i < 0 {
+					i += len(a)
+				}
+				if i >= 0 && i < len(a) {
+					cur = a[i]
+				} else {
+					cur = nil
+				}
+			} else {
+				cur = nil
+			}
+			fmt.Fprintf(&b, "[%d]", i)
+		case jp.Child:
+			k := string(t)
+			if m, ok := cur.(map[string]any); ok {
+				if _, has := m[k]; !has {
+					for mk := range m {
+						if strings.EqualFold(mk, k) {
+							k = mk
+						}
+					}
+				}
+				cur = m[k]
+			} else {
+				cur = nil
+			}
+			fmt.Fprintf(&b, "[%q]", k)
+		default:
+			fmt.Fprintf(&b, "<%T>", f)
+		}
+	}
+	return b.String()
 }
 
 func normalized(x jp.Expr) bool {
